@@ -105,64 +105,8 @@ func isConstNilV(v ssa.Value) bool {
 func c10(c *core.Ctx, r *core.Report) {
 	r.Explain("R10.identity: PopulateGraphFromSummary passes the range key and element of Args (resp. Rets) unchanged as (src, dest) to addParamEdgeByPos (resp. (src, pos) to addReturnEdgeByPos); inside those, the forward-store owner depends only on the src position and the edge target only on the dest/pos position (SSA backward slices to the parameters). R10.bound: in the by-position writers (helpers inlined with their calling context) a comparison of a listed position with len(E) uses the table the position indexes: parameter positions against Parent.Params, result positions against the result nodes, never a result position against the parameter count. R10.load: the list of loaded contracts is grow-only (no element of a []Contract is overwritten anywhere in analysis/dataflow; positive control embedded). R10.order: in ResolveCallee the interface-contract lookup precedes call-graph and by-type resolution and returns early; in LoadExternalContractSummary the interface lookup precedes the function lookup; in BuildGraph contract enforcement precedes linking. R10.nobody: every call that runs the intra-procedural analysis on a summary (RunIntraProcedural, directly or through a one-line wrapper) is dominated by a branch establishing that the summary is not Constructed; contract summaries are marked Constructed by PopulateGraphFromSummary; ShouldBuildSummary excludes functions with external contracts.")
 	r.NotDecided("the end-to-end effect for all specification matrices and call forms.")
-	// ---- R10.identity (AST)
-	if fd, p := c.Decl("analysis/dataflow", "SummaryGraph.PopulateGraphFromSummary"); fd != nil {
-		r.Analysed("analysis/dataflow.SummaryGraph.PopulateGraphFromSummary")
-		want := map[string]string{"Args": "addParamEdgeByPos", "Rets": "addReturnEdgeByPos"}
-		seen := map[string]bool{}
-		ast.Inspect(fd.Body, func(n ast.Node) bool {
-			outer, ok := n.(*ast.RangeStmt)
-			if !ok {
-				return true
-			}
-			se, ok := ast.Unparen(outer.X).(*ast.SelectorExpr)
-			if !ok || want[se.Sel.Name] == "" {
-				return true
-			}
-			okey, _ := outer.Key.(*ast.Ident)
-			oval, _ := outer.Value.(*ast.Ident)
-			good := false
-			ast.Inspect(outer.Body, func(m ast.Node) bool {
-				inner, ok := m.(*ast.RangeStmt)
-				if !ok {
-					return true
-				}
-				ix, _ := ast.Unparen(inner.X).(*ast.Ident)
-				ival, _ := inner.Value.(*ast.Ident)
-				if ix == nil || oval == nil || ix.Name != oval.Name || ival == nil {
-					return true
-				}
-				ast.Inspect(inner.Body, func(k ast.Node) bool {
-					call, ok := k.(*ast.CallExpr)
-					if !ok || len(call.Args) != 2 {
-						return true
-					}
-					if o := core.CalleeObj(call, p.TypesInfo); o == nil || o.Name() != want[se.Sel.Name] {
-						return true
-					}
-					a0, _ := ast.Unparen(call.Args[0]).(*ast.Ident)
-					a1, _ := ast.Unparen(call.Args[1]).(*ast.Ident)
-					if a0 != nil && a1 != nil && okey != nil && a0.Name == okey.Name && a1.Name == ival.Name {
-						good = true
-					}
-					return true
-				})
-				return true
-			})
-			seen[se.Sel.Name] = true
-			r.Check(good, "R10.identity", "analysis/dataflow.PopulateGraphFromSummary|"+se.Sel.Name, c.Pos(outer.Pos()),
-				"row index and listed position are passed unchanged as (src, target) to "+want[se.Sel.Name],
-				"the specification's "+se.Sel.Name+" table is not applied as written: "+want[se.Sel.Name]+" is not called with (row index, listed position)")
-			return true
-		})
-		for k := range want {
-			if !seen[k] {
-				r.Fail("R10.identity", "analysis/dataflow.PopulateGraphFromSummary|"+k, c.Pos(fd.Pos()), "no loop over summary."+k)
-			}
-		}
-	} else {
-		r.Fail("infra.anchor-unresolved", "R10.identity|PopulateGraphFromSummary", "", "not found")
-	}
+	// ---- R10.identity: rows of the specification tables (SSA)
+	rowsRule(c, r, "R10.identity")
 	// SSA slices in the by-position writers (helpers they call are inlined, so the rule is indifferent to how
 	// the writer is split into functions)
 	for _, w := range []struct {
@@ -224,7 +168,7 @@ func c10(c *core.Ctx, r *core.Report) {
 			r.Fail("R10.bound", "analysis/dataflow."+w.name+"|bounds", c.Pos(fn.Pos()), "no bound check of a listed position found")
 		}
 	}
-	r.Floor("R10.identity", 4, "two loops + two writers")
+	r.Floor("R10.identity", 4, "two tables + two writers")
 
 	c10load(c, r)
 
